@@ -8,6 +8,7 @@ OUT=seeded/RESULTS.txt
 [ -n "$APPEND" ] || : > $OUT
 for D in $DIRS; do
   D=${D%/}; NAME=$(basename $D); ID=$(echo $NAME | cut -c1-3)
+  if grep -q '"neutralised_by"' /verif/$D/meta.json 2>/dev/null; then echo "$NAME $TIER neutralised (see meta.json)" | tee -a $OUT; continue; fi
   git -C /repo diff --quiet || { echo "/repo is dirty"; exit 2; }
   git -C /repo apply /verif/$D/patch.diff || { echo "$NAME patch-does-not-apply" >> $OUT; continue; }
   S=$(date +%s)
